@@ -175,6 +175,26 @@ theorem c10_run_checked (cfg : Cfg α) (acts : List Act) (h1 : noExt acts = true
   rw [hp, List.append_nil] at hw
   exact ⟨hw, hc⟩
 
+/-- **The known-finding path of the driver** (`cut=`: a schedule built from the echoed index of the response
+    that broke off): whenever a run without external close ends with `dropped = true`, the connection was
+    closed by a request's close decision, a closing request exists, and the wire is a (proper or improper)
+    prefix of `resp₁ ++ … ++ respₘ` — the prediction `pipedrv` prints on that path is a truncation of the
+    right stream at the closing request, never anything else. -/
+theorem c10_run_cut_checked (cfg : Cfg α) (acts : List Act) (h1 : noExt acts = true)
+    (hd : (run cfg init acts).dropped = true) :
+    (run cfg init acts).wire <+: ideal cfg ∧ (run cfg init acts).closed = true ∧
+    (run cfg init acts).byServer = true ∧ willClose cfg = true := by
+  have hne : ∀ a ∈ acts, a ≠ Act.extClose := by
+    intro a ha
+    have := List.all_eq_true.mp h1 a ha
+    simpa using this
+  have hi := inv_run (cfg := cfg) acts (inv_init cfg)
+  have he : (run cfg init acts).ext = false := by rw [run_ext cfg acts init hne]; rfl
+  have hc := run_dropped (cfg := cfg) acts init (by intro h; cases h) hd
+  rcases hi.why hc with hb | hx
+  · exact ⟨wire_prefix_of_inv hi, hc, hb, (hi.by_srv hb).2.1⟩
+  · rw [he] at hx; cases hx
+
 /-- the action lists the driver appends contain no external close -/
 theorem c10_completion_noExt (k : Nat) : noExt (completion k) = true := by
   induction k with
